@@ -87,6 +87,7 @@ def _gen_build(r: Any) -> Dict[str, Any]:
                 g["weight_decay"] = r.choice([0, 0.0, 0.01, 0.1, 0.3, 0.5])
             if r.random() < 0.5:
                 g["extra"] = r.choice(["betas", "momentum", "eps", "custom"])
+            g["params_iter"] = r.random() < 0.25  # {"params": module.parameters(), ...}
         groups.append(g)
     return {
         "op": "build", "form": form, "via": via, "groups": groups, "lr": glr,
@@ -182,7 +183,7 @@ def _snapshot(groups: List[Any]) -> List[Any]:
                 if isinstance(v, torch.Tensor):
                     rec["val"] = v.detach().clone()
                     rec["ver"] = v._version
-                if k == "params":
+                if k == "params" and isinstance(v, list):
                     rec["items"] = list(v)
                 ent[k] = rec
             snap.append(ent)
@@ -264,6 +265,8 @@ def _build(w: World, spec: Dict[str, Any], res: Dict[str, Any], reject: Optional
                     d[k] = v
             if isinstance(d.get("lr"), torch.Tensor):
                 any_tensor_lr = True
+            if g.get("params_iter") and reject is None:
+                d["params"] = iter(ps)  # a one-shot iterator, as in {"params": model.parameters()}
             groups.append(d)
             flat += ps
             src += [len(groups) - 1] * len(ps)
@@ -632,7 +635,8 @@ def execute(plan: Dict[str, Any]) -> Dict[str, Any]:
                             if kk != "params":
                                 del g[kk]
                     elif how == "append_param":
-                        g["params"].append(torch.nn.Parameter(torch.zeros(1)))
+                        if isinstance(g["params"], list):
+                            g["params"].append(torch.nn.Parameter(torch.zeros(1)))
                 _refresh_unscaled(w)
                 _check_result_stable(w, where)
                 w.caller_snapshot = _snapshot(w.caller_groups)
